@@ -86,15 +86,143 @@ def _dy(rng, lo, hi, den):
     return rng.randint(lo, hi) / den
 
 
-def gen_codec(rng, tier, big=False):
+STRUCTS = ["stop_at_grace", "stop_at_grace", "stop_at", "late_start", "del_first", "grace_mains", "del_chords", "only_graces",
+           "end_grace", "end_grace"]
+STEPS = "CDEFGAB"
+
+
+def _end_of(d):
+    return max([n["t"] + n["dur"] for n in d["notes"]] or [0])
+
+
+def add_end_graces(rng, d):
+    """a score ENDING in grace notes: grace notes without a main note at the very end of the part (after the last note of
+    a voice), optionally a second one"""
+    end = _end_of(d)
+    voices = sorted(set(n["voice"] for n in d["notes"])) or [1]
+    for k in range(rng.choice([1, 1, 2])):
+        d["notes"].append({"id": "ge%d" % k, "t": end, "dur": 0, "kind": "grace", "step": rng.choice(STEPS), "alter": 0,
+                           "oct": rng.randint(3, 5), "voice": rng.choice(voices), "staff": 1,
+                           "grace_type": rng.choice(["grace", "acciaccatura", "appoggiatura"])})
+
+
+def add_grace_before(rng, d):
+    """a grace note in front of a main note near the end of the part (so that `stop_at_grace` has something to stop at)"""
+    mains = [n for n in d["notes"] if n["kind"] == "note"]
+    if not mains:
+        return
+    ts = sorted(set(n["t"] for n in mains))
+    t = rng.choice(ts[-3:])
+    m = rng.choice([n for n in mains if n["t"] == t])
+    i = d["notes"].index(m)
+    d["notes"].insert(i, {"id": "gb0", "t": t, "dur": 0, "kind": "grace", "step": rng.choice(STEPS), "alter": 0,
+                          "oct": rng.randint(3, 5), "voice": m["voice"], "staff": m.get("staff", 1),
+                          "grace_type": rng.choice(["grace", "acciaccatura", "appoggiatura"])})
+
+
+def gen_hist(rng, d):
+    """a history on ONE score object: stages of (read-only uses of the codec, in-place edits).  The edits move a note
+    later inside its own span, change its length, its pitch, remove it or add a new note; tied notes and the main notes of
+    grace notes stay where they are."""
+    cur = {n["id"]: dict(n) for n in d["notes"]}
+    end = _end_of(d)
+    tied = set(n["id"] for n in d["notes"] if n.get("tie")) | set(n.get("tie") for n in d["notes"] if n.get("tie"))
+    gr = set((n["t"], n["voice"]) for n in d["notes"] if n["kind"] == "grace")
+    voices = sorted(set(n["voice"] for n in d["notes"])) or [1]
+    stages = []
+    for s in range(rng.choice([1, 1, 2, 3])):
+        obs = []
+        for _ in range(rng.choice([1, 1, 2, 3])):
+            f = rng.choice(["enc", "enc", "enc", "ms", "ms", "msf", "dec", "tm"])
+            o = {"f": f, "alt": rng.random() < 0.3}
+            if f in ("enc", "dec"):
+                o["norm"], o["method"] = rng.choice(NORMS), rng.choice(["average", "derivative"])
+            if f == "tm":
+                o["ro"] = rng.random() < 0.5
+            obs.append(o)
+        edits = []
+        cand = [i for i, n in cur.items() if n["kind"] == "note" and i not in tied and (n["t"], n["voice"]) not in gr]
+        rng.shuffle(cand)
+        for i in cand[:rng.choice([1, 1, 2, 3])]:
+            n = cur[i]
+            r = rng.random()
+            if r < 0.3 and n["dur"] > 1:
+                k = rng.randint(1, n["dur"] - 1)
+                n["t"] += k
+                n["dur"] -= k
+                edits.append(["move", i, n["t"], n["dur"]])
+            elif r < 0.55 and end - n["t"] > 1:
+                n["dur"] = rng.choice([x for x in range(1, end - n["t"] + 1) if x != n["dur"]][:64])
+                edits.append(["move", i, n["t"], n["dur"]])
+            elif r < 0.85:
+                n["step"], n["alter"], n["oct"] = rng.choice(STEPS), rng.choice([-1, 0, 0, 1]), rng.randint(2, 6)
+                edits.append(["pitch", i, n["step"], n["alter"], n["oct"]])
+            else:
+                del cur[i]
+                edits.append(["del", i])
+        if rng.random() < 0.25 and end > 0:
+            t = rng.randrange(0, end)
+            n = {"id": "x%d" % s, "t": t, "dur": rng.randint(1, end - t), "kind": "note", "step": rng.choice(STEPS), "alter": 0,
+                 "oct": rng.randint(2, 6), "voice": rng.choice(voices), "staff": 1}
+            if (n["t"], n["voice"]) not in gr:
+                cur[n["id"]] = n
+                edits.append(["add", n])
+        if edits:
+            stages.append({"obs": obs, "edits": edits})
+    return stages
+
+
+def struct_deletions(rng, name, na):
+    """ids of the score notes a structurally placed set of deletions removes from the matches"""
+    if not len(na):
+        return set()
+    on = [int(x) for x in na["onset_div"]]
+    du = [int(x) for x in na["duration_div"]]
+    ids = [str(x) for x in na["id"]]
+    idx = range(len(na))
+    gon = sorted(set(on[i] for i in idx if du[i] == 0))
+    ons = sorted(set(on))
+    if name in ("stop_at_grace", "end_grace") and gon:
+        # the performance stops at a grace note: everything sounding past its onset is a deletion, so that the
+        # matched-note table ENDS in notes without duration
+        late = [t for t in gon if t > ons[0]] or gon
+        T = late[-1] if (name == "end_grace" or rng.random() < 0.5) else rng.choice(late)
+        return set(ids[i] for i in idx if on[i] > T or (du[i] > 0 and on[i] + du[i] > T))
+    if name in ("stop_at", "stop_at_grace", "end_grace"):
+        T = rng.choice(ons)
+        return set(ids[i] for i in idx if on[i] > T)
+    if name == "late_start":
+        T = rng.choice(ons)
+        return set(ids[i] for i in idx if on[i] < T)
+    if name == "del_first":
+        keep_grace = rng.random() < 0.5
+        return set(ids[i] for i in idx if on[i] == ons[0] and not (keep_grace and du[i] == 0))
+    if name == "grace_mains":
+        return set(ids[i] for i in idx if du[i] > 0 and on[i] in gon)
+    if name == "del_chords":
+        pick = set(t for t in ons if rng.random() < 0.4)
+        return set(ids[i] for i in idx if on[i] in pick)
+    if name == "only_graces":
+        return set(ids[i] for i in idx if du[i] > 0) if gon else set()
+    return set()
+
+
+def gen_codec(rng, tier, big=False, flavour=None):
+    """flavour: None (plain), "hist" (one score object used, edited in place, used again), "struct" (deletions placed at
+    structurally special notes / scores ending in grace notes)"""
     from gen_score import random_part_desc, build_part
 
     divs = rng.choice([1, 2, 3, 4, 4, 6, 8, 12, 24])
     if big or rng.random() < 0.04:
         divs = rng.choice([480, 960, 10080, 20000, 40000])
     voices = rng.choice([1, 2, 2, 3])
+    struct = rng.choice(STRUCTS) if flavour == "struct" else None
+    p_grace = rng.choice([0, 0, 0, 0.2])
+    if struct in ("stop_at_grace", "grace_mains", "only_graces", "del_first"):
+        p_grace = rng.choice([0.15, 0.3])
+        voices = rng.choice([1, 1, 2, 3])
     d = random_part_desc(rng, divs=divs, n_measures=rng.randint(1, 3 if tier == "quick" else 5), voices=voices,
-                         p_grace=rng.choice([0, 0, 0, 0.2]), p_rest=0.1, p_chord=rng.choice([0.1, 0.4]))
+                         p_grace=p_grace, p_rest=0.1, p_chord=rng.choice([0.1, 0.4]))
     if divs > 24 and rng.random() < 0.7:
         # move some notes by one or two divisions: distinct onsets closer than 1e-4 beat
         for n in d["notes"]:
@@ -116,7 +244,15 @@ def gen_codec(rng, tier, big=False):
             t += blen
             k += 1
         d["measures"] = ms
-    part = build_part(d)
+    if struct == "end_grace" or rng.random() < 0.06:
+        add_end_graces(rng, d)
+    if struct == "stop_at_grace" and rng.random() < 0.6:
+        add_grace_before(rng, d)
+    if rng.random() < (0.5 if flavour == "hist" else 0.2):
+        # read-only views interleaved with the construction of the part (gen_score.build_part)
+        d["warm"] = rng.randrange(1, 128)
+    hist = gen_hist(rng, d) if flavour == "hist" else []
+    part = realise(dict(d, warm=0), hist)
     na = part.note_array()
     mode = rng.choice(["free", "free", "tempo", "tempo", "const", "nonmono"])
     short = rng.random() < 0.12
@@ -126,6 +262,8 @@ def gen_codec(rng, tier, big=False):
     last_div, last_beat = None, None
     pk = 0
     order = list(range(len(na)))
+    gone = struct_deletions(rng, struct, na) if struct else set()
+    p_del = 0.08 if not struct else rng.choice([0, 0, 0.05])
     for i in order:
         n = na[i]
         if last_div is not None and n["onset_div"] != last_div:
@@ -139,7 +277,7 @@ def gen_codec(rng, tier, big=False):
         if last_div is None or n["onset_div"] != last_div:
             last_div, last_beat = n["onset_div"], float(n["onset_beat"])
         r = rng.random()
-        if r < 0.08:
+        if r < p_del and str(n["id"]) not in gone:
             al.append({"label": "deletion", "score_id": str(n["id"])})
             continue
         if mode == "const":
@@ -158,13 +296,26 @@ def gen_codec(rng, tier, big=False):
         pid = "p%d" % pk
         pk += 1
         perf.append({"id": pid, "pitch": int(n["pitch"]), "on": on, "dur": du, "vel": rng.randint(1, 127)})
+        if str(n["id"]) in gone:
+            # the score note was left out and the note played in its place is an extra one
+            al.append({"label": "deletion", "score_id": str(n["id"])})
+            if rng.random() < 0.7:
+                al.append({"label": "insertion", "performance_id": pid})
+            else:
+                perf.pop()
+            continue
         al.append({"label": "match", "score_id": str(n["id"]), "performance_id": pid})
-    # insertions, ornaments, matches to ids the score does not have
-    for _ in range(rng.choice([0, 0, 1, 2, 3])):
+    # insertions, ornaments, matches to ids the score does not have (among them the ids of notes the history removed)
+    removed = [e[1] for st in hist for e in st["edits"] if e[0] == "del"]
+    extra = [("match", i) for i in removed] + [(None, None)] * rng.choice([0, 0, 1, 2, 3])
+    for lab, sid in extra:
         pid = "p%d" % pk
         pk += 1
         perf.append({"id": pid, "pitch": rng.randint(30, 90), "on": _dy(rng, 0, 1024, 64), "dur": _dy(rng, 5, 64, 64),
                      "vel": rng.randint(1, 127)})
+        if lab == "match":
+            al.append({"label": "match", "score_id": sid, "performance_id": pid})
+            continue
         r = rng.random()
         if r < 0.5:
             al.append({"label": "insertion", "performance_id": pid})
@@ -179,9 +330,21 @@ def gen_codec(rng, tier, big=False):
         rng.shuffle(perf)
     if tier == "quick":
         combos = [[rng.choice(NORMS), rng.choice(METHODS)] for _ in range(2)]
+        if struct:
+            # the mean-based normalisations spread one bad beat period over every note
+            combos[0] = [rng.choice(NORMS[2:]), rng.choice(METHODS[:2])]
     else:
         combos = [[a, b] for a in NORMS for b in METHODS]
-    return {"k": "codec", "part": d, "perf": perf, "al": al, "combos": combos, "mode": mode, "short": short}
+    out = {"k": "codec", "part": d, "perf": perf, "al": al, "combos": combos, "mode": mode, "short": short}
+    if hist:
+        out["hist"] = hist
+    if struct:
+        out["struct"] = struct
+    if rng.random() < 0.25:
+        out["as"] = "score"
+    if rng.random() < 0.15:
+        out["pas"] = "performance"
+    return out
 
 
 def gen_tables(rng):
@@ -249,11 +412,12 @@ def cases(rng, tier):
     for _ in range({"quick": 60, "thorough": 1500, "search": 1500}[tier]):
         sub = random.Random(rng.getrandbits(48))
         yield gen_mono(sub)
-    n_codec = {"quick": 120, "thorough": 3000, "search": 3000}[tier]
+    n_codec = {"quick": 150, "thorough": 3600, "search": 3600}[tier]
     n_tab = {"quick": 80, "thorough": 1500, "search": 1500}[tier]
     for i in range(n_codec):
         sub = random.Random(rng.getrandbits(48))
-        yield gen_codec(sub, tier, big=(i % 25 == 7))
+        flavour = [None, None, "hist", "struct", None, "hist", "struct", None, "hist", "struct"][i % 10]
+        yield gen_codec(sub, tier, big=(i % 25 == 7), flavour=flavour)
     for _ in range(n_tab):
         sub = random.Random(rng.getrandbits(48))
         yield gen_tables(sub)
@@ -308,6 +472,202 @@ def build_perf(perf):
 
     return PerformedPart([dict(id=p["id"], midi_pitch=p["pitch"], note_on=p["on"], note_off=p["on"] + p["dur"],
                                velocity=p["vel"]) for p in perf])
+
+
+def note_objects(part):
+    import partitura.score as S
+
+    return dict((n.id, n) for n in part.iter_all(S.GenericNote, include_subclasses=True))
+
+
+def apply_edits(part, edits):
+    """in-place edits of a score object, the way an editor / a cleaning step does them (public API only)"""
+    import partitura.score as S
+
+    objs = note_objects(part)
+    for e in edits:
+        if e[0] == "add":
+            n = e[1]
+            o = S.Note(step=n["step"], octave=n["oct"], alter=n.get("alter"), id=n["id"], voice=n.get("voice"), staff=n.get("staff"))
+            part.add(o, n["t"], n["t"] + n["dur"])
+            objs[n["id"]] = o
+            continue
+        o = objs.get(e[1])
+        if o is None:
+            continue
+        if e[0] == "move":
+            part.remove(o)
+            part.add(o, e[2], e[2] + e[3])
+        elif e[0] == "pitch":
+            o.step, o.alter, o.octave = e[2], e[3], e[4]
+        elif e[0] == "del":
+            part.remove(o)
+            del objs[e[1]]
+
+
+def realise(pd, hist, upto=None):
+    """the part after the edits of the stages `hist[:upto]`, built without any use of the codec in between"""
+    from gen_score import build_part
+
+    part = build_part(pd)
+    for st in (hist if upto is None else hist[:upto]):
+        apply_edits(part, st["edits"])
+    return part
+
+
+def wrap(part, kind):
+    """the score argument: a Part or a Score holding it (`ScoreLike`)"""
+    if kind == "score":
+        import partitura.score as S
+
+        return S.Score([part])
+    return part
+
+
+def wrap_perf(pp, kind):
+    if kind == "performance":
+        from partitura.performance import Performance
+
+        return Performance(pp)
+    return pp
+
+
+def alt_inputs(perf, al):
+    """another performance of the same notes (other onsets, durations, velocities) and a thinner alignment: what an
+    earlier use of the same score object may have been about"""
+    perf2 = [dict(p, on=p["on"] * 1.25 + 0.5, dur=p["dur"] * 0.5 + 0.125, vel=128 - p["vel"]) for p in perf]
+    k = 0
+    al2 = []
+    for a in al:
+        if a["label"] == "match":
+            k += 1
+            if k % 3 == 0:
+                continue
+        al2.append(a)
+    return perf2, al2
+
+
+def _val(x):
+    if isinstance(x, np.ndarray):
+        return [_val(v) for v in x.tolist()]
+    if isinstance(x, (list, tuple)):
+        return [_val(v) for v in x]
+    if isinstance(x, (float, np.floating)):
+        x = float(x)
+        return "nan" if x != x else x
+    if isinstance(x, (np.integer,)):
+        return int(x)
+    return x
+
+
+def observe(obj, pobj, al, o):
+    """one read-only use of the codec with the score object `obj`; returns (value, raw): `value` is plain data (NaN as
+    "nan") that two equal-valued scores must give bit for bit, `raw` the arrays themselves"""
+    import partitura.musicanalysis.performance_codec as pc
+
+    f = o["f"]
+    try:
+        if f in ("ms", "msf"):
+            ms, sids = pc.to_matched_score(obj, pobj, copy_al(al), include_score_markings=(f == "msf"))
+            val = ["ms"] + [_val(ms[c]) for c in ("onset", "duration", "pitch", "p_onset", "p_duration", "velocity")] + [[str(x) for x in sids]]
+            return val, (ms, sids)
+        if f in ("enc", "dec"):
+            smooth = o["method"] if o["method"] != "callable" else make_callable(4711)
+            params, sids = pc.encode_performance(obj, pobj, copy_al(al), beat_normalization=o["norm"], tempo_smooth=smooth)
+            out = ["enc", list(params.dtype.names)] + [_val(params[c]) for c in params.dtype.names] + [[str(x) for x in sids]]
+            if f == "dec":
+                dec = pc.decode_performance(obj, params, snote_ids=list(sids), beat_normalization=o["norm"])
+                out.append([[str(n["id"]), int(n["midi_pitch"]), _val(float(n["note_on"])), _val(float(n["note_off"])), int(n["velocity"])]
+                            for n in dec.notes])
+            return out, (params, sids)
+        if f == "tm":
+            p2s, s2p = pc.get_time_maps_from_alignment(pobj, obj, copy_al(al), bool(o.get("ro")))
+            qs = np.array([-1.0, 0.0, 0.5, 1.0, 2.5, 7.0])
+            return ["tm", _val(np.atleast_1d(s2p(qs))), _val(np.atleast_1d(p2s(qs)))], (p2s, s2p)
+    except Exception as e:
+        return ["err", type(e).__name__], None
+    return ["?"], None
+
+
+def table_edits(a, b):
+    """the edits (model side, `SEdit`) that turn the note table `a` into `b`; rows are identified by their id"""
+    ra = dict((str(r["id"]), r) for r in a)
+    rb = dict((str(r["id"]), r) for r in b)
+    ops = []
+    for i, r in ra.items():
+        if i not in rb:
+            ops.append("e del %s" % W.s(i))
+    for i, r in rb.items():
+        if i not in ra:
+            ops.append("e add %s" % " ".join([W.s(i), W.i(r["onset_div"]), W.i(r["pitch"]), q(r["onset_beat"]), q(r["duration_beat"])]))
+            continue
+        o = ra[i]
+        if (int(o["onset_div"]), float(o["onset_beat"]), float(o["duration_beat"])) != (int(r["onset_div"]), float(r["onset_beat"]), float(r["duration_beat"])):
+            ops.append("e move %s %s %s %s" % (W.s(i), W.i(r["onset_div"]), q(r["onset_beat"]), q(r["duration_beat"])))
+        if int(o["pitch"]) != int(r["pitch"]):
+            ops.append("e pitch %s %s" % (W.s(i), W.i(r["pitch"])))
+    return ops
+
+
+def knots_of(sna, pna, al, remove_orn):
+    """(unique matched score onset, mean performed onset of its notes), exact"""
+    by = {}
+    for i, j in expected_pairs(sna, pna, al):
+        if remove_orn and not float(sna["duration_beat"][i]) > 0:
+            continue
+        by.setdefault(fr(sna["onset_beat"][i]), []).append(fr(pna["onset_sec"][j]))
+    return sorted((u, sum(v) / len(v)) for u, v in by.items())
+
+
+def hist_query(tab, pna, al, o, raw):
+    """a use of the codec as a query of the model's history (`hrun`), with what the implementation returned for it;
+    None when the model's history does not carry that call (a user callable; np.std of `standardized`; decoding)"""
+    f = o["f"]
+    tail = " ".join(perf_tokens(pna) + al_tokens(al))
+    if f in ("ms", "msf"):
+        if raw is None:
+            return "q ms " + tail, "err"
+        ms, sids = raw
+        return "q ms " + tail, [[str(sids[k]), float(ms["onset"][k]), float(ms["duration"][k]), int(ms["pitch"][k]), float(ms["p_onset"][k]),
+                                float(ms["p_duration"][k]), int(ms["velocity"][k])] for k in range(len(ms))]
+    if f in ("enc", "dec"):
+        norm, method = o["norm"], o["method"]
+        if method not in ("average", "derivative") or norm == "beat_period_standardized":
+            return None
+        req = "q enc %s %s 0 %s" % (norm, method, tail)
+        if raw is None:
+            return req, "err"
+        params, sids = raw
+        art = params["articulation_log"].astype(float)
+        cols = [[float(x) for x in param_cols(norm, params, k)] for k in range(len(params))]
+        return req, [[str(x) for x in sids], [float(x) for x in params["beat_period"]], [float(x) for x in params["timing"]],
+                     [float(2.0 ** a) for a in art], cols, [float(x) for x in params["velocity"]]]
+    if f == "tm":
+        req = "q tm %s %s" % (W.b(bool(o.get("ro"))), tail)
+        if raw is None:
+            return req, "err"
+        us = [float(u) for u, _ in knots_of(tab, pna, al, bool(o.get("ro")))]
+        vs, e = call(lambda: [float(x) for x in np.atleast_1d(raw[1](np.array(us, dtype=float)))])
+        if e is not None:
+            return req, "err"
+        return req, [[u, (v if math.isfinite(v) else None)] for u, v in zip(us, vs)]
+    return None
+
+
+def first_diff(a, b, path=""):
+    if isinstance(a, list) and isinstance(b, list):
+        if len(a) != len(b):
+            return "%s: %d vs %d entries" % (path or "result", len(a), len(b))
+        for i, (x, y) in enumerate(zip(a, b)):
+            r = first_diff(x, y, "%s[%d]" % (path, i))
+            if r:
+                return r
+        return None
+    return None if a == b else "%s: %r vs %r" % (path or "result", a, b)
+
+
+def same_table(a, b):
+    return a.dtype == b.dtype and len(a) == len(b) and a.tobytes() == b.tobytes()
 
 
 def score_array(rows):
@@ -428,7 +788,35 @@ def make_callable(seed):
     return tempo_fun
 
 
-def eval_codec_combo(ev, part, pp, al, ms, sids, norm, method, info):
+def tempo_bound(sna, sids, ms):
+    """an upper bound of every beat period (seconds per beat) either built-in tempo curve can return, from the exact
+    integer columns of the score: both curves are slopes (difference quotients / central differences) of a piecewise linear
+    function through points (score onset, performed time) whose times lie inside the performance and whose score onsets are
+    matched onsets of the score or `last_time` (the latest offset, or one beat after the last onset when - in exact
+    divisions - no matched note sounds past it).  None when two matched onsets are closer than 0.02 beat (then the size of
+    the beat periods is left to the tolerances)."""
+    if len(ms) == 0:
+        return None
+    idx = first_index(sna["id"])
+    rows = [idx[str(x)] for x in sids]
+    od = [int(x) for x in sna["onset_div"][rows]]
+    dd = [int(x) for x in sna["duration_div"][rows]]
+    ob = ms["onset"].astype(float)
+    ds = ms["duration"].astype(float)
+    uo = sorted(set(od))
+    beat = dict((t, float(np.mean([ob[k] for k in range(len(od)) if od[k] == t]))) for t in uo)
+    gaps = [beat[b] - beat[a] for a, b in zip(uo, uo[1:])]
+    past = [ob[k] + ds[k] - beat[uo[-1]] for k in range(len(od)) if od[k] + dd[k] > uo[-1]]
+    gaps.append(max(past) if past else 1.0)
+    smin = min(gaps)
+    if not smin >= 0.02:
+        return None
+    po, pd = ms["p_onset"].astype(float), ms["p_duration"].astype(float)
+    span = float(np.max(po + pd) - np.min(po)) + 1.0
+    return span / (0.9 * smin), span, smin
+
+
+def eval_codec_combo(ev, part, pp, al, ms, sids, norm, method, info, pobj=None):
     import partitura.musicanalysis.performance_codec as pc
 
     sna = part.note_array()
@@ -436,7 +824,8 @@ def eval_codec_combo(ev, part, pp, al, ms, sids, norm, method, info):
     smooth = method
     if method == "callable":
         smooth = make_callable(len(ms) * 31 + NORMS.index(norm))
-    r, e = call(pc.encode_performance, part, pp, copy_al(al), return_u_onset_idx=True, beat_normalization=norm, tempo_smooth=smooth)
+    r, e = call(pc.encode_performance, part, pp if pobj is None else pobj, copy_al(al), return_u_onset_idx=True,
+                beat_normalization=norm, tempo_smooth=smooth)
     so, sd = ms["onset"].astype(float), ms["duration"].astype(float)
     po, pd = ms["p_onset"].astype(float), ms["p_duration"].astype(float)
     rows = [str(len(ms))]
@@ -465,6 +854,11 @@ def eval_codec_combo(ev, part, pp, al, ms, sids, norm, method, info):
     if not (np.all(np.isfinite(bp64)) and np.all(bp64 > 0)):
         ev.oracle.append("roundtrip: %s beat periods are not positive and finite: %r" % (method, bp64[:8].tolist()))
         return
+    if method in ("average", "derivative"):
+        tb = tempo_bound(sna, sids, ms)
+        if tb is not None and float(np.max(bp64)) > tb[0]:
+            ev.oracle.append("tempo(%s): a beat period of %r s per beat, although the matched notes are performed within %.6g s and "
+                             "no score interval is shorter than %.6g beat" % (method, float(np.max(bp64)), tb[1] - 1.0, tb[2]))
     rnorm = norm
     if norm == "beat_period_standardized" and 0 < std < 1e-9 * mean:
         rnorm = "beat_period"  # z = rounding noise / rounding noise: the column is not compared
@@ -512,6 +906,11 @@ def eval_codec_combo(ev, part, pp, al, ms, sids, norm, method, info):
     # (a timing value of magnitude M carries a float32 rounding of M * 2^-24: ill-conditioned tempo curves, e.g. the
     # smoothed derivative next to a 1e-4 beat score interval, give timings of thousands of seconds)
     rtol = T32 * max(1.0, float(np.max(np.abs(params["timing"]))) if len(params) else 1.0)
+    logx = 0.0
+    if norm in ("beat_period_log", "beat_period_ratio_log") and len(params):
+        # a float32 column x that is read as 2^x carries a relative rounding of ln 2 * |x| * 2^-24 into the beat period
+        logx = float(np.max(np.abs(params[norm].astype(float))))
+        rtol *= max(1.0, logx / 4)
     if norm == "beat_period_standardized" and len(params):
         zs = np.abs(params["beat_period_standardized"].astype(float) * params["beat_period_std"].astype(float))
         mu = float(params["beat_period_mean"][0])
@@ -539,6 +938,10 @@ def eval_codec_combo(ev, part, pp, al, ms, sids, norm, method, info):
             diffs.append(float(pna["onset_sec"][j]) - on)
     if len(items) != len(pair):
         ev.oracle.append("roundtrip(%s,%s): %d matched notes, %d decoded" % (norm, method, len(pair), len(items)))
+    nonfin = [a for a, b, c, _ in out if b is None or c is None]
+    if nonfin:
+        ev.oracle.append("nonfinite(%s,%s): decode_performance returned NaN/inf onsets or durations for %d of %d notes (%s ...)" % (
+            norm, method, len(nonfin), len(out), ",".join(nonfin[:4])))
     if not items:
         return
     shift = float(np.median(diffs)) if diffs else 0.0
@@ -548,7 +951,7 @@ def eval_codec_combo(ev, part, pp, al, ms, sids, norm, method, info):
     if norm == "beat_period_standardized":
         span = float(so.max() - so.min()) + float(sd.max()) + 1.0
         scale = 4 * scale + 5 * float(params["beat_period_mean"][0]) * span
-    tol_on = T32 * max(1.0, scale)
+    tol_on = T32 * max(1.0, scale) * max(1.0, logx / 4)
     for idn, on, du, ve, j in items:
         p_on, p_du, p_ve = float(pna["onset_sec"][j]), float(pna["duration_sec"][j]), int(pna["velocity"][j])
         k = prm[idn]
@@ -562,9 +965,15 @@ def eval_codec_combo(ev, part, pp, al, ms, sids, norm, method, info):
             b = float(params["beat_period"][k])
             mu = float(params["beat_period_mean"][k])
             cond = max(1.0, (3 * abs(b - mu) + 2 * mu + b) / (4 * b)) if b > 0 else 1.0
-        tol_du = T32 * max(1.0, a) * cond * p_du
+        tol_du = T32 * max(1.0, a + logx / 4) * cond * p_du
         if du is None or abs(du - p_du) > tol_du:
-            what = "grace" if s_du <= 0 else ("clip" if p_du < CLIP else "other")
+            # the two open findings, and nothing wider: a grace note decodes to duration 0 (F-C18-2), a note played for less
+            # than 0.075 s to 0.075 s (F-C18-4); any other decoded value (NaN, a third number) is a failure of its own
+            what = "other"
+            if du is not None and s_du <= 0 and du == 0:
+                what = "grace"
+            elif du is not None and s_du > 0 and p_du < CLIP and abs(du - CLIP) <= tol_du + T32 * max(1.0, a) * cond * CLIP:
+                what = "clip"
             ev.oracle.append("duration/%s(%s,%s): note %s decoded duration %r, performed %r (score duration %r)" % (
                 what, norm, method, idn, du, p_du, s_du))
         if ve != p_ve:
@@ -618,7 +1027,7 @@ def eval_decode_table(ev, na, d):
     ev.impl.append(("@approx", out, T32 * 4))
 
 
-def eval_time_maps(ev, part, pp, al, remove_orn, rng):
+def eval_time_maps(ev, part, pp, al, remove_orn, rng, pobj=None):
     import partitura.musicanalysis.performance_codec as pc
 
     sna = part.note_array()
@@ -645,7 +1054,7 @@ def eval_time_maps(ev, part, pp, al, remove_orn, rng):
         qp += [min(mp) - 0.75, max(mp) + 1.5]
     for a, b in zip(sorted(mp), sorted(mp)[1:]):
         qp.append((a + b) / 2)
-    r, e = call(pc.get_time_maps_from_alignment, pp, part, copy_al(al), remove_orn)
+    r, e = call(pc.get_time_maps_from_alignment, pp if pobj is None else pobj, part, copy_al(al), remove_orn)
     toks = [W.b(remove_orn), str(len(rows))]
     for so, sd, po in rows:
         toks += [q(so), q(sd), q(po)]
@@ -781,26 +1190,92 @@ def evaluate(d):
     # ---- codec
     from gen_score import build_part
 
+    hist = d.get("hist") or []
+    askind, pkind = d.get("as"), d.get("pas")
     part = build_part(d["part"])
+    obj = wrap(part, askind)          # THE score object: used, edited in place, used again
     pp = build_perf(d["perf"])
+    pobj = wrap_perf(pp, pkind)
     al = d["al"]
-    sna = part.note_array()
+    plain = dict(d["part"], warm=0)
+
+    def fresh(k=None):
+        """a new score object of the value the used one has after the edits of the first k stages"""
+        return wrap(realise(plain, hist, k), askind)
+
+    # -- history: every use of the one score object must give what the same call gives on a fresh equal-valued score
+    nobs = 0
+    hops, himpl, hist_ok = [], [], True
+    tabs = [fresh(k).note_array() for k in range(len(hist))] if hist else []
+    if hist:
+        perf2, al2 = alt_inputs(d["perf"], al)
+        pp2 = build_perf(perf2)
+        pobj2 = wrap_perf(pp2, pkind)
+    for k, st in enumerate(hist):
+        if k > 0:
+            hops += table_edits(tabs[k - 1], tabs[k])
+        for o in st["obs"]:
+            P, PP, A = (pobj2, pp2, al2) if o.get("alt") else (pobj, pp, al)
+            tw = fresh(k)
+            if not same_table(tw.note_array(), obj.note_array()):
+                hist_ok = False  # the note tables themselves differ: not for this property to judge (C05)
+                continue
+            (got, raw), (want, _) = observe(obj, P, A, o), observe(tw, P, A, o)
+            nobs += 1
+            df = first_diff(got, want)
+            if df:
+                ev.oracle.append("history(%s): %s on a score object that was used before and edited in place (stage %d%s) differs from "
+                                 "the same call on a fresh score of equal value: %s" % (o["f"], o["f"], k, ", other performance" if o.get("alt") else "", df))
+            hq = hist_query(tabs[k], PP.note_array(), A, o, raw)
+            if hq is not None:
+                hops.append(hq[0])
+                himpl.append(hq[1])
+        apply_edits(part, st["edits"])
+
+    sna = obj.note_array()
     pna = pp.note_array()
     info = {"groups": 0}
-    res = eval_tables(ev, sna, pna, al, part, pp)
+    res = eval_tables(ev, sna, pna, al, obj, pobj)
     if res is not None:
         ms, sids = res
         for norm, method in d["combos"]:
-            eval_codec_combo(ev, part, pp, al, ms, sids, norm, method, info)
+            eval_codec_combo(ev, obj, pp, al, ms, sids, norm, method, info, pobj=pobj)
     rng = random.Random(len(al) * 7919 + len(pna))
     for ro in (True, False):
-        eval_time_maps(ev, part, pp, al, ro, rng)
+        eval_time_maps(ev, obj, pp, al, ro, rng, pobj=pobj)
+    # -- the last state once more: repeated calls, and the same calls on a fresh score of equal value (built without
+    #    the interleaved reads of d["part"]["warm"], never used before)
+    tw = fresh()
+    tfin = tw.note_array()
+    if same_table(tfin, sna):
+        if hist:
+            hops += table_edits(tabs[-1], tfin)
+        last = [{"f": "ms"}, {"f": "tm", "ro": True}] + [{"f": "dec", "norm": a, "method": b} for a, b in d["combos"][:3]]
+        for o in last:
+            (got, raw), (want, _) = observe(obj, pobj, al, o), observe(tw, pobj, al, o)
+            nobs += 1
+            df = first_diff(got, want)
+            if df:
+                ev.oracle.append("history(%s): %s on the score object used so far differs from the same call on a fresh score of equal "
+                                 "value: %s" % (o["f"], o["f"], df))
+            hq = hist_query(tfin, pna, al, o, raw)
+            if hq is not None:
+                hops.append(hq[0])
+                himpl.append(hq[1])
+    else:
+        hist_ok = False
+    if hist and hist_ok:
+        # the whole history in the model (Model/CodecHist `hrun`): the note table of the first state, the edits as they
+        # show in the table, the uses of the codec as queries; the model answers every query from the table as it is then
+        ev.requests.append("hist %s %d %s" % (" ".join(score_tokens(tabs[0])), len(hops), " ".join(hops)))
+        ev.impl.append(("@approx", himpl, 2.0 ** -18))
     ng = info["groups"]
     grace = any(n["kind"] == "grace" for n in d["part"]["notes"])
-    ev.info = {"groups": ng, "notes": len(sna), "grace": grace}
+    ev.info = {"groups": ng, "notes": len(sna), "grace": grace, "uses": nobs}
     if ng >= 2:
-        ev.key = "codec n%d g%d %s%s%s %s" % (len(sna), ng, d.get("mode"), "s" if d.get("short") else "", "G" if grace else "",
-                                               ",".join("%s/%s" % (a[12:], b[:3]) for a, b in d["combos"]) if len(d["combos"]) < 4 else "all")
+        ev.key = "codec n%d g%d %s%s%s%s%s %s" % (len(sna), ng, d.get("mode"), "s" if d.get("short") else "", "G" if grace else "",
+                                                   " h%d" % len(hist) if hist else "", " " + d["struct"] if d.get("struct") else "",
+                                                   ",".join("%s/%s" % (a[12:], b[:3]) for a, b in d["combos"]) if len(d["combos"]) < 4 else "all")
     return ev
 
 
@@ -819,10 +1294,27 @@ def shrink(d):
     if len(d["combos"]) > 1:
         for c in d["combos"]:
             yield dict(d, combos=[c])
+    for key in ("as", "pas"):
+        if d.get(key):
+            yield dict((a, b) for a, b in d.items() if a != key)
+    if d["part"].get("warm"):
+        yield dict(d, part=dict(d["part"], warm=0))
+    hist = d.get("hist") or []
+    for k in range(len(hist)):
+        # a history is smaller without a stage's uses, without a stage, with fewer uses / edits in a stage
+        yield dict(d, hist=hist[:k] + hist[k + 1:])
+        st = hist[k]
+        for j in range(len(st["obs"])):
+            if len(st["obs"]) > 1:
+                yield dict(d, hist=hist[:k] + [dict(st, obs=st["obs"][:j] + st["obs"][j + 1:])] + hist[k + 1:])
+        for j in range(len(st["edits"])):
+            if len(st["edits"]) > 1:
+                yield dict(d, hist=hist[:k] + [dict(st, edits=st["edits"][:j] + st["edits"][j + 1:])] + hist[k + 1:])
+    edited = set(e[1] for st in hist for e in st["edits"] if e[0] != "add")
     notes = d["part"]["notes"]
     for i in range(len(notes)):
         nid = notes[i]["id"]
-        if any(n.get("tie") == nid for n in notes):
+        if any(n.get("tie") == nid for n in notes) or nid in edited:
             continue
         rest = [dict(n) for j, n in enumerate(notes) if j != i]
         pids = set(a.get("performance_id") for a in d["al"] if a.get("score_id") == nid)
@@ -847,4 +1339,9 @@ def distribution(descs, results):
     return {"kinds": dict(kinds), "performance_modes": dict(modes), "normalisation_x_method": dict(combos),
             "onset_groups_bucket": {str(k): v for k, v in sorted(groups.items())}, "alignment_labels": dict(labels),
             "with_grace_notes": sum(1 for r in results if (r.get("info") or {}).get("grace")),
+            "histories_on_one_score_object": sum(1 for d in descs if d.get("hist")),
+            "uses_compared_with_a_fresh_score": sum((r.get("info") or {}).get("uses", 0) for r in results),
+            "structural_deletions": dict(Counter(d.get("struct") for d in descs if d.get("struct"))),
+            "warm_builds": sum(1 for d in descs if d.get("k") == "codec" and d["part"].get("warm")),
+            "score_argument_kinds": dict(Counter(d.get("as", "part") for d in descs if d.get("k") == "codec")),
             "short_note_cases": sum(1 for d in descs if d.get("short"))}
